@@ -363,4 +363,5 @@ func runC17(tier string, seed uint64, out *Out) {
 	out.Line("%s", lookupRateScenario("server-refuses"))
 	out.Line("%s", cacheRegionsRateScenario())
 	out.Line("%s", establisherRateScenario())
+	out.Line("%s", adminPollRateScenario())
 }
